@@ -327,7 +327,9 @@ func TestVerifC13(t *testing.T) {
 }
 
 func pickWidth(r *rand.Rand) int {
-	switch r.Intn(12) {
+	switch r.Intn(13) {
+	case 12:
+		return 250 + r.Intn(800) // very wide terminals and pad targets
 	case 0:
 		return 80
 	case 1:
